@@ -158,13 +158,13 @@ def main(argv=None):
     evidence = {
         "property_id": prop, "tier": a.tier, "seed": seed, "level": "model_checking",
         "coverage": {
-            "states": max(agg["paths"], 0), "transitions": max(agg["decisions"], 0),
+            "states": max(agg["paths"], 0), "transitions": agg["decisions"] + agg["paths"],
             "traces_validated_against_impl": len(violations),
             "samples": samples,
             "evaluations": agg["queries"], "distinct_nontrivial": agg["nontrivial_keys"],
             "rule": "one case = (work item, feasible path of the real code, obligation) whose obligation is not syntactically True; "
                     "each is decided by one z3 query PC ∧ ¬obligation over ALL values of the symbolic inputs within the stated shapes; "
-                    "states = feasible paths explored, transitions = branch decisions taken",
+                    "states = feasible paths explored, transitions = branch decisions taken plus one completed run per feasible path",
             "obligations": agg["obligations"], "discharged": agg["discharged"], "trivially_true": agg["trivial"],
             "work_items": len(items), "regression_witnesses_replayed": agg.get("regression_witnesses", 0), "solver_s": solver_s, "solver_checks": agg["checks"], "rng_stub_calls": agg["rng_calls"],
             "exhaustive": False,
